@@ -980,6 +980,73 @@ func (u *U) foldCall(name string, args []*E, typ types.Type) *E {
 			}
 			return args[1]
 		}
+	case "strings.Index", "strings.LastIndex", "strings.IndexAny", "strings.LastIndexAny", "strings.Count":
+		if len(args) == 2 {
+			a, ok1 := args[0].StrVal()
+			b, ok2 := args[1].StrVal()
+			if ok1 && ok2 {
+				var r int
+				switch name {
+				case "strings.Index":
+					r = strings.Index(a, b)
+				case "strings.LastIndex":
+					r = strings.LastIndex(a, b)
+				case "strings.IndexAny":
+					r = strings.IndexAny(a, b)
+				case "strings.LastIndexAny":
+					r = strings.LastIndexAny(a, b)
+				case "strings.Count":
+					r = strings.Count(a, b)
+				}
+				return u.ConstVal(constant.MakeInt64(int64(r)), types.Typ[types.Int])
+			}
+		}
+	case "strings.IndexByte", "strings.LastIndexByte":
+		if len(args) == 2 {
+			a, ok1 := args[0].StrVal()
+			b, ok2 := args[1].IntVal()
+			if ok1 && ok2 && b >= 0 && b < 256 {
+				r := strings.IndexByte(a, byte(b))
+				if name == "strings.LastIndexByte" {
+					r = strings.LastIndexByte(a, byte(b))
+				}
+				return u.ConstVal(constant.MakeInt64(int64(r)), types.Typ[types.Int])
+			}
+		}
+	case "strings.HasPrefix", "strings.HasSuffix", "strings.Contains", "strings.ContainsAny", "strings.EqualFold":
+		if len(args) == 2 {
+			a, ok1 := args[0].StrVal()
+			b, ok2 := args[1].StrVal()
+			if ok1 && ok2 {
+				var r bool
+				switch name {
+				case "strings.HasPrefix":
+					r = strings.HasPrefix(a, b)
+				case "strings.HasSuffix":
+					r = strings.HasSuffix(a, b)
+				case "strings.Contains":
+					r = strings.Contains(a, b)
+				case "strings.ContainsAny":
+					r = strings.ContainsAny(a, b)
+				case "strings.EqualFold":
+					r = strings.EqualFold(a, b)
+				}
+				return u.Bool(boolRef(r))
+			}
+		}
+	case "strings.ToLower", "strings.ToUpper", "strings.TrimSpace":
+		if len(args) == 1 {
+			if a, ok := args[0].StrVal(); ok {
+				switch name {
+				case "strings.ToLower":
+					return u.Str(strings.ToLower(a))
+				case "strings.ToUpper":
+					return u.Str(strings.ToUpper(a))
+				default:
+					return u.Str(strings.TrimSpace(a))
+				}
+			}
+		}
 	case "math/bits.OnesCount64", "math/bits.OnesCount32", "math/bits.OnesCount":
 		if len(args) == 1 {
 			if v, ok := args[0].IntVal(); ok {
